@@ -192,7 +192,7 @@ Lemma compact_encode_length n :
   | NFloat b => if f_is_nan b || f_is_inf b then 1%nat else 9%nat
   end.
 Proof.
-  destruct n as [z|u|b]; cbn [compact_encode].
+  destruct n as [z|u|b]; cbn [compact_encode]; unfold CE_INT_ZERO, CE_UINT_ZERO.
   - destruct (z =? 0)%Z; [reflexivity|]. cbn [length]. rewrite be_bytes_length. reflexivity.
   - destruct (u =? 0); [reflexivity|]. cbn [length]. rewrite be_bytes_length. reflexivity.
   - destruct (f_is_nan b); [reflexivity|]. destruct (f_is_inf b); [destruct (f_sign b); reflexivity|].
@@ -222,7 +222,7 @@ Proof.
     - right. right. left. split; [reflexivity|]. change (2 ^ (8 * Z.of_nat 4 - 1))%Z with 2147483648%Z in Hz. lia.
     - right. right. right. reflexivity. }
   destruct (int_width_range z) as [Hin _]. cbn [In] in Hin.
-  unfold int_width in *.
+  unfold int_width, CE_INT_FITS1, CE_INT_FITS2, CE_INT_FITS3, CE_INT_W1, CE_INT_W2, CE_INT_W3, CE_INT_W4 in *.
   repeat match goal with |- context [if ?c then _ else _] => destruct c eqn:? end; lia.
 Qed.
 
@@ -236,7 +236,7 @@ Proof.
     - right. right. left. split; [reflexivity|]. change (256 ^ N.of_nat 4) with 4294967296 in Hu. lia.
     - right. right. right. reflexivity. }
   destruct (uint_width_range u) as [Hin _]. cbn [In] in Hin.
-  unfold uint_width in *.
+  unfold uint_width, CE_UINT_FITS1, CE_UINT_FITS2, CE_UINT_FITS3, CE_UINT_W1, CE_UINT_W2, CE_UINT_W3, CE_UINT_W4 in *.
   repeat match goal with |- context [if ?c then _ else _] => destruct c eqn:? end; lia.
 Qed.
 
